@@ -287,6 +287,8 @@ def check_exclusions(ctx: Ctx) -> None:
                             continue  # run by the base protocol (20.3-base, 20.1-super)
                         okb = any(_must_call(f, name) for _, owner, f in _restore_functions(ctx, cls) if owner != idx.cls(SER, "Serializable"))
                         ctx.ob("20.1-rebuild", con, okb, f"the constructor fills `{e}` through self.{name}(); the restore of {cls.name} does not call it on every path, so the restored attribute is not what a fresh object holds", node=c, stmt=f"restore calls the builder {name} of {e}")
+                # re-created by the same constructor call as in __init__, from the stored values of the same arguments
+                _same_construction(ctx, cls, e, con)
                 # the re-creation reads only serialised state
                 reads = set()
                 for _, owner, f in _restore_functions(ctx, cls):
@@ -326,6 +328,68 @@ def check_exclusions(ctx: Ctx) -> None:
         ctx.ob("20.1-super", cname(cls.module.relpath, cls.qualname, "__setstate__"), bool(ok), "an override of __setstate__ must first run the base protocol with the same state (hooks, counters by value, paths)", node=(sc or [f])[0], stmt="super().__setstate__(state) first")
     ctx.floor("20.1-super", 4)
     ctx.extra["effective_exclusions"] = n_eff
+
+
+def _call_params(ctx: Ctx, cls: ClassInfo, call: ast.Call) -> dict[str, ast.AST] | None:
+    """parameter name (or position) -> argument expression, through the callee's signature when it is a class of src."""
+    name = dotted(call.func)
+    params: list[str] = []
+    if name:
+        q = cls.module.imports.get(name.split(".")[0])
+        target = ctx.index.resolve_qualified(q) if q and "." not in name else None
+        if target is None and "." not in name and name in cls.module.classes:
+            target = cls.module.classes[name]
+        if target is not None:
+            found = ctx.index.resolve_method(target, "__init__")
+            if found is not None:
+                params = [p for p in param_names(found[1]) if p != "self"]
+    out: dict[str, ast.AST] = {}
+    for i, a in enumerate(call.args):
+        if isinstance(a, ast.Starred):
+            return None
+        out[params[i] if i < len(params) else f"#{i}"] = a
+    for k in call.keywords:
+        if k.arg is None:
+            return None
+        out[k.arg] = k.value
+    return out
+
+
+def _same_construction(ctx: Ctx, cls: ClassInfo, stored: str, con: str) -> None:
+    idx = ctx.index
+    init = idx.resolve_method(cls, "__init__")
+    if init is None:
+        return
+
+    def direct(f, owner):
+        return [s for s in stmts_of(f) if isinstance(s, ast.Assign) and isinstance(s.targets[0], ast.Attribute) and dotted(s.targets[0].value) == "self" and mangle(owner.name, s.targets[0].attr) == stored and isinstance(s.value, ast.Call)]
+
+    a0 = direct(init[1], init[0])
+    a1 = [(s, owner) for _, owner, f in _restore_functions(ctx, cls) for s in direct(f, owner)]
+    if len(a0) != 1 or len(a1) != 1 or dotted(a0[0].value.func) != dotted(a1[0][0].value.func):
+        return  # built through helpers or differently: covered by the builder rule
+    p0, p1 = _call_params(ctx, cls, a0[0].value), _call_params(ctx, cls, a1[0][0].value)
+    if p0 is None or p1 is None:
+        return
+    # values stored by __init__: self.<a> = <expr>
+    stored_as = {}
+    for s in stmts_of(init[1]):
+        if isinstance(s, ast.Assign) and isinstance(s.targets[0], ast.Attribute) and dotted(s.targets[0].value) == "self":
+            stored_as.setdefault(norm_stmt(s.value), set()).add(s.targets[0].attr)
+    bad = []
+    for k in sorted(set(p0) | set(p1)):
+        e0, e1 = p0.get(k), p1.get(k)
+        if e0 is None or e1 is None:
+            bad.append(f"{k}: {'missing at restore' if e1 is None else 'only at restore'}")
+            continue
+        if isinstance(e0, ast.Constant) and isinstance(e1, ast.Constant) and e0.value == e1.value:
+            continue
+        if isinstance(e1, ast.Attribute) and dotted(e1.value) == "self" and e1.attr in stored_as.get(norm_stmt(e0), ()):
+            continue
+        if norm_stmt(e0) == norm_stmt(e1) and isinstance(e0, ast.Attribute):
+            continue
+        bad.append(f"{k}: {norm_stmt(e0)} at construction, {norm_stmt(e1)} at restore")
+    ctx.ob("20.1-rebuild", con, not bad, f"`{stored}` is re-created by {dotted(a1[0][0].value.func)}(...) with other arguments than in __init__ ({'; '.join(bad)}): the restored object does not behave like the original for the non-default settings", node=a1[0][0], stmt=f"{stored} re-created with the arguments of __init__")
 
 
 def _self_assigned(f: ast.FunctionDef) -> set[str]:
@@ -426,6 +490,9 @@ def check_primitives(ctx: Ctx) -> None:
                 excluded = stored in _entries(ctx, s_cls)[0]
                 if rec["kind"] == "synchronized":
                     ok = in_hook or (excluded and in_hook)
+                    if BEFORE in rec["methods"]:
+                        # a counter created by the before-hook is meant to travel by value: excluding it loses the value
+                        ctx.ob("20.2-by-value", con, not excluded, f"the counter `{stored}` is created by {BEFORE} (so that Serializable restores its value) but it is also excluded from the state: the restored object starts from the initial value, counters and statistics do not carry over", node=rec["stmt"], stmt=f"counter {stored} travels by value")
                     what = f"the multiprocessing value `{stored}` is created in {sorted(rec['methods'])}, not in a shared-memory hook: Serializable stores its value and the restored object holds a plain number where a Synchronized is expected"
                 else:
                     ok = excluded and in_hook
@@ -733,6 +800,8 @@ _ESS = "core/execution_statistics.py"
 _TQ = "algos/_progress_bars/custom_tqdm_progress_bar.py"
 _MFC = "caches/memory_full_cache.py"
 WITNESSES = [
+    {"name": "sobieski-problem-rebuilt-with-default-dtype", "file": _SOB, "old": "        self.sobieski_problem = SobieskiProblem(self.dtype)", "new": "        self.sobieski_problem = SobieskiProblem()", "expect": "20.1"},
+    {"name": "statistics-exclusion-mangled", "file": _ESS, "old": "        \"__duration\",\n        \"__n_executions\",\n        \"__n_linearizations\",", "new": "        \"_ExecutionStatistics__duration\",\n        \"_ExecutionStatistics__n_executions\",\n        \"_ExecutionStatistics__n_linearizations\",", "expect": "20.2"},
     {"name": "sobieski-problem-not-rebuilt", "file": _SOB, "old": "        super().__setstate__(state)\n        self.sobieski_problem = SobieskiProblem(self.dtype)", "new": "        super().__setstate__(state)", "expect": "20.1"},
     {"name": "sobieski-rebuilt-only-for-complex", "file": _SOB, "old": "        super().__setstate__(state)\n        self.sobieski_problem = SobieskiProblem(self.dtype)", "new": "        super().__setstate__(state)\n        if self.dtype != SobieskiBase.DataType.FLOAT:\n            self.sobieski_problem = SobieskiProblem(self.dtype)", "expect": "20.1"},
     {"name": "sobieski-setstate-skips-base", "file": _SOB, "old": "        super().__setstate__(state)\n        self.sobieski_problem = SobieskiProblem(self.dtype)", "new": "        self.__dict__.update(state)\n        self.sobieski_problem = SobieskiProblem(self.dtype)", "expect": "20.1"},
